@@ -6,6 +6,7 @@ use crate::tape::Tape;
 use crate::wild::{gen_soup_item, gen_wild, wild_opts};
 use crate::xp::{expand, panic_sig, Outcome, ROOT_ERR};
 use serde_json::json;
+use std::fmt::Write;
 
 pub struct Wild {
     opts: GenOpts,
@@ -16,7 +17,7 @@ pub struct Valid {
 }
 
 pub fn parts() -> Vec<Box<dyn Part>> {
-    vec![Box::new(Wild { opts: wild_opts() }), Box::new(Soup), Box::new(Valid { opts: wild_opts() })]
+    vec![Box::new(Wild { opts: wild_opts() }), Box::new(Soup), Box::new(Valid { opts: wild_opts() }), Box::new(Lattice)]
 }
 
 pub fn judge(text: String, mut labels: Vec<String>, ctx: &Ctx) -> CaseReport {
@@ -122,6 +123,218 @@ impl Part for Valid {
         let mut t = Tape::new(tape);
         let (item, labels) = crate::gen::gen_item(&mut t, &self.opts);
         judge(item.render(), labels, ctx)
+    }
+    fn run_text(&self, text: &str, ctx: &Ctx) -> Option<CaseReport> {
+        Some(judge(text.to_string(), vec![], ctx))
+    }
+}
+
+/// The fallback lattice: which member instruction serves a conversion is decided by kind set, fallibility and dedication, once in
+/// validation and once in expansion. This generator spans that choice directly: every member carries 0-3 mapping instructions whose
+/// names are drawn from all 21 spellings, each with or without a counterpart member name and an action, under 1-2 trait instructions
+/// of any of the 24 spellings with any of the four hints, on named / tuple structs and enum variants, with `#[child_parents]` entries
+/// of any hint.
+pub struct Lattice;
+
+const LAT_HINTS: [&str; 4] = ["", " as {}", " as ()", " as Unit"];
+
+fn flip_fallible(name: &str) -> String {
+    if name.contains("try_") {
+        name.replacen("try_", "", 1)
+    } else if let Some(rest) = name.strip_prefix("owned_") {
+        format!("owned_try_{}", rest)
+    } else if let Some(rest) = name.strip_prefix("ref_") {
+        format!("ref_try_{}", rest)
+    } else {
+        format!("try_{}", name)
+    }
+}
+
+fn flip_existing(name: &str) -> Option<String> {
+    if let Some(base) = name.strip_suffix("_existing") {
+        Some(base.to_string())
+    } else if name.ends_with("into") {
+        Some(format!("{}_existing", name))
+    } else {
+        None
+    }
+}
+
+/// The member-level spellings related to the given trait-level ones by a change of fallibility and / or into <-> into_existing.
+fn relatives(trait_names: &[&str]) -> Vec<&'static str> {
+    let mut pool: Vec<String> = vec![];
+    for n in trait_names {
+        let mut group = vec![n.to_string(), flip_fallible(n)];
+        for g in group.clone() {
+            if let Some(e) = flip_existing(&g) {
+                group.push(e);
+            }
+        }
+        pool.extend(group);
+    }
+    crate::dsl::MEMBER_MAP_NAMES.iter().copied().filter(|m| pool.iter().any(|p| p == m)).collect()
+}
+
+fn lat_member_attrs(t: &mut Tape, tys: &[&str], pool: &[&'static str], child_paths: &[&str], labels: &mut Vec<String>) -> String {
+    let mut s = String::new();
+    let n = t.weighted(&[2, 4, 4, 2]);
+    for _ in 0..n {
+        match t.weighted(&[12, 1, 1, 1]) {
+            0 => {
+                let name = if !pool.is_empty() && t.chance(2, 3) { *t.pick(pool) } else { *t.pick(&crate::dsl::MEMBER_MAP_NAMES) };
+                let ded = if t.chance(1, 5) { format!("{}| ", t.pick(tys)) } else { String::new() };
+                let member = *t.pick(&["", "", "nm", "1", "0"]);
+                let action = *t.pick(&["", "", "~.clone()", "@.x + 1", "{ 5 }"]);
+                let args = match (member.is_empty(), action.is_empty()) {
+                    (true, true) => ded.trim_end().to_string(),
+                    (false, true) => format!("{}{}", ded, member),
+                    (true, false) => format!("{}{}", ded, action),
+                    (false, false) => format!("{}{}, {}", ded, member, action),
+                };
+                if args.is_empty() {
+                    let _ = write!(s, "#[{}] ", name);
+                } else {
+                    let _ = write!(s, "#[{}({})] ", name, args);
+                }
+                if member.is_empty() {
+                    labels.push("lattice:nameless-instr".into());
+                }
+            }
+            1 => s.push_str(*t.pick(&["#[ghost] ", "#[ghost({ 1 })] ", "#[o2o(ghost_owned({ 2 }))] ", "#[o2o(ghost_ref(Foo| { 3 }))] "])),
+            2 => {
+                if !child_paths.is_empty() {
+                    let _ = write!(s, "#[child({})] ", t.pick(child_paths));
+                    labels.push("lattice:child".into());
+                }
+            }
+            _ => s.push_str(*t.pick(&["#[parent] ", "#[parent(x, [map(y)] z)] ", "#[parent(Foo| 0, 1)] "])),
+        }
+    }
+    s
+}
+
+pub fn gen_lattice(t: &mut Tape) -> (String, Vec<String>) {
+    let mut labels = vec!["lattice".to_string()];
+    let mut s = String::new();
+    let shape = t.weighted(&[3, 4, 3]);
+    let ntr = 1 + t.below(2);
+    let tys = ["Foo", "Bar"];
+    let mut any_fallible_ie = false;
+    let mut trait_names = vec![];
+    for i in 0..ntr {
+        let name = *t.pick(&crate::dsl::TRAIT_NAMES);
+        trait_names.push(name);
+        let hint = LAT_HINTS[t.weighted(&[3, 3, 2, 1])];
+        let fallible = name.contains("try_");
+        any_fallible_ie |= fallible && name.ends_with("into_existing");
+        let tail = if t.chance(1, 10) { " | return make(@)" } else if t.chance(1, 10) { " | ..Default::default()" } else { "" };
+        let _ = write!(s, "#[{}({}{}{}{})] ", name, tys[i], hint, if fallible { ", Err" } else { "" }, tail);
+    }
+    if any_fallible_ie {
+        labels.push("lattice:fallible-into-existing".into());
+    }
+    let pool = relatives(&trait_names);
+    let mut child_paths: Vec<&str> = vec![];
+    if shape < 2 && t.chance(2, 5) {
+        let deep = t.coin();
+        let ded = if t.chance(1, 4) { "Foo| " } else { "" };
+        let h1 = LAT_HINTS[t.weighted(&[3, 2, 2, 2])];
+        if deep {
+            let h2 = LAT_HINTS[t.weighted(&[3, 2, 2, 2])];
+            let _ = write!(s, "#[child_parents({}a: A{}, a.b: B{})] ", ded, h1, h2);
+            child_paths = vec!["a", "a.b"];
+        } else {
+            let _ = write!(s, "#[child_parents({}a: A{})] ", ded, h1);
+            child_paths = vec!["a"];
+        }
+        if h1 == " as Unit" {
+            labels.push("lattice:unit-child-parent".into());
+        }
+    }
+    match shape {
+        0 | 1 => {
+            let nf = 1 + t.below(3);
+            let named = shape == 0;
+            let _ = write!(s, "struct S {}", if named { "{ " } else { "(" });
+            for i in 0..nf {
+                let attrs = lat_member_attrs(t, &tys, &pool, &child_paths, &mut labels);
+                if named {
+                    let _ = write!(s, "{}f{}: i32, ", attrs, i);
+                } else {
+                    let _ = write!(s, "{}i32, ", attrs);
+                }
+            }
+            s.push_str(if named { "}" } else { ");" });
+            labels.push(if named { "lattice:named".into() } else { "lattice:tuple".into() });
+        }
+        _ => {
+            s.push_str("enum S { ");
+            let nv = 1 + t.below(2);
+            for v in 0..nv {
+                if t.chance(1, 2) {
+                    let _ = write!(s, "#[type_hint({})] ", LAT_HINTS[1 + t.below(3)].trim_start());
+                }
+                if t.chance(1, 3) {
+                    let name = *t.pick(&crate::dsl::MEMBER_MAP_NAMES);
+                    let _ = write!(s, "#[{}(W{})] ", name, v);
+                }
+                if t.chance(1, 6) {
+                    s.push_str(*t.pick(&["#[literal(1)] ", "#[pattern(_)] ", "#[ghost] "]));
+                }
+                let vshape = t.below(3);
+                let nf = 1 + t.below(2);
+                match vshape {
+                    0 => {
+                        let _ = write!(s, "V{}, ", v);
+                    }
+                    1 => {
+                        let _ = write!(s, "V{}(", v);
+                        for _ in 0..nf {
+                            let attrs = lat_member_attrs(t, &tys, &pool, &[], &mut labels);
+                            let _ = write!(s, "{}i32, ", attrs);
+                        }
+                        s.push_str("), ");
+                    }
+                    _ => {
+                        let _ = write!(s, "V{} {{ ", v);
+                        for i in 0..nf {
+                            let attrs = lat_member_attrs(t, &tys, &pool, &[], &mut labels);
+                            let _ = write!(s, "{}f{}: i32, ", attrs, i);
+                        }
+                        s.push_str("}, ");
+                    }
+                }
+            }
+            s.push('}');
+            labels.push("lattice:enum".into());
+        }
+    }
+    (s, labels)
+}
+
+impl Part for Lattice {
+    fn name(&self) -> &'static str {
+        "lattice"
+    }
+    fn prop(&self) -> &'static str {
+        "C16"
+    }
+    fn rule(&self) -> String {
+        "Instruction-selection lattice: 1-2 trait instructions of any of the 24 spellings with any hint (none, {}, (), Unit), optional `return` / `..update`, optional #[child_parents] with one or two levels of any hint, on a named struct, a tuple struct or an enum with 1-2 variants (optional type_hint / rename / literal / pattern / ghost); every member carries 0-3 instructions: a mapping of any of the 21 spellings (two in three drawn from the spellings related to the trait instructions by a change of fallibility or into <-> into_existing) with or without dedication, counterpart name / index and action, a ghost, a #[child], a #[parent]. Same oracle and non-triviality rule as `wild`.".into()
+    }
+    fn cases(&self, tier: Tier) -> usize {
+        match tier {
+            Tier::Quick => 24_000,
+            Tier::Thorough => 1_000_000,
+        }
+    }
+    fn max_tape(&self) -> usize {
+        160
+    }
+    fn run_case(&self, tape: &[u16], ctx: &Ctx) -> CaseReport {
+        let mut t = Tape::new(tape);
+        let (text, labels) = gen_lattice(&mut t);
+        judge(text, labels, ctx)
     }
     fn run_text(&self, text: &str, ctx: &Ctx) -> Option<CaseReport> {
         Some(judge(text.to_string(), vec![], ctx))
